@@ -78,15 +78,17 @@ def scramble(obj):
         if isinstance(v, np.ndarray) and v.dtype.kind == 'f' and v.flags.writeable:
             v[...] = -31.0
 
+_KTPOS = [0]
 def build_system(sd, types=None):
     n = sd['n']; types = list(types) if types is not None else TYPES[:n]
     kT = sd['kT']
     if sd.get('kT_type') and float(kT) == int(kT):
         kT = int(kT) if sd['kT_type'] == 'int' else getattr(np, sd['kT_type'])(int(kT))          # a whole-number temperature given as a Python / NumPy integer
+    _KTPOS[0] += 1
     if sd.get('kT_assign'):
         s = pyPRISM.System(types, kT=sd['kT_assign']); s.kT = kT          # the documented attribute is (re-)assigned after construction (temperature sweeps)
     else:
-        s = pyPRISM.System(types, kT=kT)
+        s = pyPRISM.System(types, kT) if _KTPOS[0] % 2 else pyPRISM.System(types, kT=kT)          # the documented signature System(types, kT=1.0): kT by position or by name, alternating
     if sd.get('dom') is not None:
         if sd.get('dom_from_dk'):
             s.domain = pyPRISM.Domain(length=sd['dom'][0], dk=math.pi / (sd['dom'][1] * sd['dom'][0]))      # the same grid, configured through dk
